@@ -209,7 +209,8 @@ class HSM2Protocol:
             return self.ERROR_CODE_INVALID_BROTHERS
 
         # Validate brother elements are lists of nonempty hex strings
-        if not all(type(item) == list for item in request["brothers"]) or \
+        if not all(type(item) == list and len(item) <= 0xff
+                   for item in request["brothers"]) or \
            not all(type(item) == str and is_nonempty_hex_string(item)
                    for brother_list in request["brothers"]
                    for item in brother_list):
